@@ -245,6 +245,7 @@ class Checker:
                 self.fileinfo[i] = {
                     "path": str(self.root / base),
                     "length": item["length"],
+                    "attr": item.get("attr"),
                 }
 
                 self.paths.append(str(self.root / base))
@@ -385,7 +386,9 @@ class FeedChecker(ProgMixin):
             total = self.fileinfo[i]["length"]
             self.progbar = self.get_progress_tracker(total, path)
             self.index = i
-            if os.path.exists(path):
+            # padding entries describe zeros, they are never files on disk
+            padding = "p" in str(self.fileinfo[i].get("attr") or "")
+            if os.path.exists(path) and not padding:
                 for piece in self.extract(path, partial):
                     if len(piece) == self.piece_length:
                         yield piece
